@@ -31,7 +31,7 @@ func init() {
 	})
 }
 
-var c05Kinds = []string{"user", "user", "user", "in-read", "in-event", "in-exception", "in-active", "read-failure", "sender-failure", "parent-context", "holder"}
+var c05Kinds = []string{"user", "user", "user", "in-read", "in-event", "in-exception", "in-active", "read-failure", "sender-failure", "parent-context", "holder", "read-failure-neterr-swallowed"}
 
 type lifeProbe struct {
 	mu            sync.Mutex
@@ -52,6 +52,8 @@ type lifeProbe struct {
 	closeActive   bool
 	gate          func(string)
 	client        bool
+	wrapReadErr   bool
+	swallowExc    bool
 	panicInactive bool
 }
 
@@ -108,6 +110,10 @@ func (p *lifeProbe) HandleRead(ctx netty.InboundContext, message netty.Message) 
 	var b [1]byte
 	_, err := message.(io.Reader).Read(b[:])
 	if err != nil {
+		if p.wrapReadErr {
+			// the way the shipped LengthFieldCodec reports a failed header read
+			panic(fmt.Errorf("read header fail, error: %w", err))
+		}
 		panic(err)
 	}
 	switch b[0] {
@@ -134,6 +140,9 @@ func (p *lifeProbe) HandleException(ctx netty.ExceptionContext, ex netty.Excepti
 	p.mu.Lock()
 	p.exceptions = append(p.exceptions, ex)
 	p.mu.Unlock()
+	if p.swallowExc {
+		return // an application that only logs exceptions
+	}
 	// like the tail: close with the exception (registered so the winner can be attributed)
 	p.reg.register(ex)
 	ctx.Close(ex)
@@ -204,11 +213,22 @@ func c05Trial(c *core.Ctx, id string, idx int) {
 	parent, parentCancel := context.WithCancel(context.Background())
 	defer parentCancel()
 	holder := netty.NewChannelHolder(2)
+	// an application that swallows exceptions cannot also be the one that closes on them
+	for _, kd := range kinds {
+		if kd == "read-failure-neterr-swallowed" {
+			for j := range kinds {
+				if kinds[j] == "read-failure" || kinds[j] == "in-exception" {
+					kinds[j] = "user"
+					errs[j] = fmt.Errorf("close-error-%d-user", j)
+				}
+			}
+		}
+	}
 	// at most one closer of each in-handler kind (each has one error slot)
 	used := map[string]bool{}
 	for i, kd := range kinds {
 		switch kd {
-		case "in-read", "in-event", "in-exception", "in-active", "read-failure", "sender-failure", "parent-context":
+		case "in-read", "in-event", "in-exception", "in-active", "read-failure", "sender-failure", "parent-context", "read-failure-neterr-swallowed":
 			if used[kd] {
 				kinds[i] = "user"
 				errs[i] = fmt.Errorf("close-error-%d-user", i)
@@ -226,6 +246,11 @@ func c05Trial(c *core.Ctx, id string, idx int) {
 		case "in-active":
 			probe.errActive = errs[i]
 			probe.closeActive = true
+		case "read-failure-neterr-swallowed":
+			// a fatal (non-timeout) net.Error from the transport, wrapped by the decoding handler, while the
+			// application's exception handler only logs: the channel itself has to give up
+			errs[i] = tmoErr{false}
+			probe.wrapReadErr, probe.swallowExc = true, true
 		}
 	}
 	// perturbation: gates between closers, sender and read loop
@@ -244,7 +269,13 @@ func c05Trial(c *core.Ctx, id string, idx int) {
 		plan = []mon.Step{{At: []string{"sBat", "tV0", "sRec", "tF0", "sRel"}[rng.Intn(5)], Occ: 1, Kind: mon.Gate, Until: "cEl", UntilCount: 1, Timeout: 20 * time.Millisecond}}
 		planKind = "sender-waits-for-close"
 	}
-	rig := mon.NewRig(mon.RigOpts{Mode: mode, Queue: q, Ctx: parent, NoPark: true, Plan: plan,
+	var wrap *[2]int
+	if idx%4 == 2 {
+		// on the library's own transport wrapper: 'the transport is closed' is then observed at the connection underneath
+		wv := [][2]int{{64, 64}, {4096, 4096}, {0, 64}, {64, 0}, {0, 0}}[(idx/4)%5]
+		wrap = &wv
+	}
+	rig := mon.NewRig(mon.RigOpts{Mode: mode, Queue: q, Ctx: parent, NoPark: true, Plan: plan, Wrap: wrap,
 		Handlers: []netty.Handler{holder, probe},
 		// attribute the elected Close to its goroutine
 		OnPoint: func(p netty.VerifPoint) {
@@ -325,10 +356,11 @@ func c05Trial(c *core.Ctx, id string, idx int) {
 				rig.T.FeedBytes([]byte("p"))
 			case "in-active":
 				// already happened during activation
-			case "read-failure":
+			case "read-failure", "read-failure-neterr-swallowed":
 				rig.T.SetTerminal(o.err)
 			case "sender-failure":
 				rig.T.AddFault(mon.Fault{Kind: mon.OpWritev, K: 0, Err: o.err})
+				rig.T.AddFault(mon.Fault{Kind: mon.OpWrite, K: 0, Err: o.err}) // underneath a wrapper every write is a Write
 				rig.Ch.Write1(mon.Payload(9, 0, 32))
 			case "parent-context":
 				parentCancel()
@@ -354,14 +386,37 @@ func c05Trial(c *core.Ctx, id string, idx int) {
 	quiet := rig.Ex.WaitOutstanding(0, 10*time.Second)
 	viol := func(key, what string) {
 		ops, _ := rig.T.Snapshot()
-		c.Violation("C05:"+key, id, fmt.Sprintf("%s [mode=%s Q=%d closers=%v plan=%s]", what, mode, q, kinds, planKind),
+		c.Violation("C05:"+key, id, fmt.Sprintf("%s [mode=%s Q=%d closers=%v plan=%s wrapper=%v]", what, mode, q, kinds, planKind, wrap),
 			map[string]interface{}{"marks": rig.S.LogString(80), "ops": tailOpString(ops)})
 	}
 	if !quiet {
+		if !rig.T.IsClosed() && !rig.Ch.IsActive() && rig.Ch.Context().Err() != nil && wrap != nil {
+			probe.mu.Lock()
+			nin := len(probe.inactive)
+			probe.mu.Unlock()
+			if nin > 0 {
+				viol("connection-never-closed-after-channel-close", fmt.Sprintf("the channel reports closed (inactive delivered, context done) but the connection underneath the library's transport wrapper NewTransport(conn,%d,%d) was never closed: the read loop stays parked in its Read", wrap[0], wrap[1]))
+				rig.T.Close()
+				rig.Dispose()
+				return
+			}
+		}
 		if !rig.T.IsClosed() && mon.ParkedIn("(*channel).writeOnce", "sleep") > 0 {
 			// the background sender's failure path is waiting inside Close for the sender (itself) to finish:
 			// a definite stuck state - the transport will never be closed, inactive never delivered
 			viol("write-side-failure-never-closes", "after a write-side transport failure the failed sender is parked inside Close waiting for the sender flag it holds itself: the transport is never closed, inactive is never delivered, the context is never cancelled")
+			rig.T.Close()
+			rig.Dispose()
+			return
+		}
+		onlySwallowed := len(kinds) > 0
+		for _, kd := range kinds {
+			if kd != "read-failure-neterr-swallowed" {
+				onlySwallowed = false
+			}
+		}
+		if !rig.T.IsClosed() && onlySwallowed {
+			viol("fatal-read-failure-did-not-end-the-channel", "every transport read fails with a non-timeout net.Error (wrapped by the decoding handler, swallowed by the application's exception handler) and 10 s later the channel is still open and its read loop still running")
 			rig.T.Close()
 			rig.Dispose()
 			return
@@ -418,7 +473,7 @@ func c05Trial(c *core.Ctx, id string, idx int) {
 			// a Close issued by the framework itself (read loop end => nil, sender failure => the write error)
 			ok := probe.inactive[0] == nil
 			for i, kd := range kinds {
-				if (kd == "sender-failure" || kd == "read-failure") && errors.Is(probe.inactive[0], errs[i]) {
+				if (kd == "sender-failure" || kd == "read-failure" || kd == "read-failure-neterr-swallowed") && errors.Is(probe.inactive[0], errs[i]) {
 					ok = true
 				}
 			}
